@@ -1,6 +1,8 @@
 package leaderrotation
 
 import (
+	"math/rand"
+
 	"github.com/relab/hotstuff"
 	"github.com/relab/hotstuff/core"
 	"github.com/relab/hotstuff/core/logging"
@@ -14,7 +16,16 @@ import (
 // replica i+1); the last committed blocks have symbolic proposers; round and seed are symbolic.
 func VH_C16_carousel(n int, sigmask int, depth int) {
 	seed := int64(nondetU64("seed"))
+	round := hotstuff.View(nondetU64("round"))
 	sym := vsymbolic()
+	if !sym {
+		// The engine treats the PRNG as an arbitrary function of the seed, so the seed in a
+		// counterexample need not produce the draw the solver chose. Natively the real PRNG runs:
+		// replay with a shared seed whose draw for this round agrees with the model's draw modulo
+		// every possible number of candidates (n <= 7, lcm 420). The property does not depend on
+		// which seed it is.
+		seed = vhSeedFor(nondetU64("rand.Int"), round)
+	}
 	mk := func(self int) (*Carousel, *cert.VWorld, *protocol.ViewStates) {
 		w := cert.VNewWorld(self, n, false, 0, sym, core.WithSharedRandomSeed(seed))
 		st, err := protocol.NewViewStates(w.Chain, w.Auth)
@@ -62,7 +73,6 @@ func VH_C16_carousel(n int, sigmask int, depth int) {
 	head := chain[depth-1]
 	s1.VSetCommitted(head)
 	s2.VSetCommitted(head)
-	round := hotstuff.View(nondetU64("round"))
 	l := c1.GetLeader(round)
 	vobserve("round-low-bit", uint64(round&1)) // the leader itself depends on the concrete PRNG stream
 	vassert(c2.GetLeader(round) == l, "same-leader-on-every-replica")
@@ -86,4 +96,13 @@ func VH_C16_carousel(n int, sigmask int, depth int) {
 		vassert(l != props[depth-1-i], "leader-proposed-none-of-the-last-f-committed-blocks")
 	}
 	vassert(l >= 1 && int(l) <= n, "leader-is-configured")
+}
+
+func vhSeedFor(want uint64, round hotstuff.View) int64 {
+	for s := int64(0); s < 200000; s++ {
+		if uint64(rand.New(rand.NewSource(s+int64(round))).Int())%420 == want%420 {
+			return s
+		}
+	}
+	return 0
 }
